@@ -3199,7 +3199,11 @@ pub fn matrix_column_elements(&mut self, column_elements: &[&MatrixColumn]) -> S
   pub fn complex_numer(&mut self, node: &C64Node) -> String {
     let real = if let Some(real) = &node.real {
       let num = self.real_number(&real);
-      format!("{}+", num)
+      // A negative imaginary part carries its own sign: 1-2i, not 1+-2i.
+      match &node.imaginary.number {
+        RealNumber::Negated(_) => num,
+        _ => format!("{}+", num),
+      }
     } else {
       "".to_string()
     };
